@@ -106,7 +106,30 @@ def const_return(m, fname):
 
 
 def switch_map(m, fname):
-    """{case value: returned constant} + default for a function of the shape `switch (arg) { case c: return k; } return arg/const`"""
+    """{case value: returned constant} + default for a function of the shape `switch (arg) { case c: return k; } return arg/const`;
+    any other pure function of one small integer (a table lookup, an if chain) is tabulated by exact evaluation over the digit domain"""
+    try:
+        return _switch_map(m, fname)
+    except AnalysisBroken as e0:
+        from . import ceval
+        f = m.fn(fname)
+        if len(f.args) != 1 or f.args[0]["type"].endswith("*"):
+            raise
+        try:
+            w = int(f.args[0]["type"][1:])
+            ev = lambda v: ceval._sg(ceval.Eval(m, f, [v & ((1 << w) - 1)], {}).run(), w)
+            out = {v: ev(v) for v in range(0, 8)}
+            probe = [8, 9, 15, 100, -1]
+            rest = [ev(v) for v in probe]
+        except AnalysisBroken:
+            raise e0
+        default = "identity" if rest == probe else (rest[0] if len(set(rest)) == 1 else None)
+        if default == "identity":
+            out = {v: r for v, r in out.items() if r != v}
+        return out, default
+
+
+def _switch_map(m, fname):
     f = m.fn(fname)
     sw = [i for i in f.all_insts() if i.op == "switch"]
     if len(sw) != 1 or sw[0].ops[0][0] != "a":
@@ -148,6 +171,9 @@ def kernel_vectors(m, tabs, fname):
         try:
             vecs.append(tabs.get(n, fname))
         except AnalysisBroken:
+            lin = _kernel_linear(m, f)
+            if lin is not None:
+                return lin
             raise AnalysisBroken("%s: constant vector %s not found (kernel no longer has the shape 'scale three constant vectors; add; normalise')" % (fname, n))
     callees = [i.callee for i in f.all_insts() if i.op == "call" and i.callee and not i.callee.startswith("llvm.")]
     need = {"_ijkScale": 3, "_ijkAdd": 2, "_ijkNormalize": 1}
@@ -155,3 +181,61 @@ def kernel_vectors(m, tabs, fname):
         if callees.count(c) != n:
             raise AnalysisBroken("%s: expected %d call(s) to %s, found %d (kernel shape changed)" % (fname, n, c, callees.count(c)))
     return vecs
+
+
+def _kernel_linear(m, f):
+    """the same kernel written as plain arithmetic: new (i, j, k) = integer-linear forms of the old (i, j, k), then _ijkNormalize.
+    -> [iVec, jVec, kVec] (the images of the unit vectors), or None when the function does not have that shape"""
+    names = ("i", "j", "k")
+
+    def field(o):
+        base, path = ir.field_path(m, f, o)
+        if base == ("a", 0) and len(path) == 1 and path[0][0] == "f" and path[0][2] in names:
+            return path[0][2]
+        return None
+    stores = [x for x in f.all_insts() if x.op == "store" and field(x.ops[1])]
+    loads = [x for x in f.all_insts() if x.op == "load" and field(x.ops[0])]
+    norm = [x for x in f.all_insts() if x.op == "call" and x.callee == "_ijkNormalize"]
+    other = [x for x in f.all_insts() if x.op == "call" and x.callee and not x.callee.startswith("llvm.") and x.callee != "_ijkNormalize"]
+    if len(f.blocks) != 1 or len(stores) != 3 or len(norm) != 1 or other or not loads:
+        return None
+    if max(l.id for l in loads) > min(s_.id for s_ in stores) or norm[0].id < max(s_.id for s_ in stores):
+        return None
+
+    def lin(o, depth=0):
+        if depth > 12:
+            return None
+        if o[0] == "c":
+            return None if ir.cint_signed(o) != 0 else (0, 0, 0)
+        if o[0] != "i":
+            return None
+        i = f.insts[o[1]]
+        if i.op == "load":
+            n = field(i.ops[0])
+            return tuple(1 if x == n else 0 for x in names) if n else None
+        if i.op in ("add", "sub"):
+            a, b = lin(i.ops[0], depth + 1), lin(i.ops[1], depth + 1)
+            if a is None or b is None:
+                return None
+            sg = 1 if i.op == "add" else -1
+            return tuple(x + sg * y for x, y in zip(a, b))
+        if i.op in ("mul", "shl") and i.ops[1][0] == "c":
+            a = lin(i.ops[0], depth + 1)
+            if a is None:
+                return None
+            k = ir.cint_signed(i.ops[1]) if i.op == "mul" else (1 << i.ops[1][1])
+            return tuple(x * k for x in a)
+        if i.op == "mul" and i.ops[0][0] == "c":
+            a = lin(i.ops[1], depth + 1)
+            return None if a is None else tuple(x * ir.cint_signed(i.ops[0]) for x in a)
+        return None
+    rows = {}
+    for s_ in stores:
+        l_ = lin(s_.ops[0])
+        if l_ is None or field(s_.ops[1]) in rows:
+            return None
+        rows[field(s_.ops[1])] = l_
+    if set(rows) != set(names):
+        return None
+    # column c = image of unit vector c
+    return [[rows[r][c] for r in names] for c in range(3)]
